@@ -92,6 +92,85 @@ def record_level(ctx, rng, viol):
         [dict(request=lines[i], decoded=unhx(lines[i].split()[1]).decode("utf-8", "replace"), model=m[i], impl=impl[i]) for i in (0, 1, n + 2)]
 
 
+PRETTY_KINDS = ["unchanged", "check", "do", "done", "resumed", "locked", "waiting", "unlocked", "error", "warning", "debug", "other", "", "Done", "do ", "x:y"]
+
+
+def pretty_text(rng):
+    if rng.random() < 0.3:
+        return rng.choice(["a", "sub/x.o", "0 a", "1 b c", "-3 q", "00 z", "+0 p", "7", "x  ", "é/ü", "@@ t", "2147483648 w", " 1 t", "1  t", "1", "32 sub/../x"])
+    return "".join(rng.choice("ab /.01-+@: é()\t") for _ in range(rng.randint(0, 8)))
+
+
+def pretty_input(rng):
+    """One line as PrettyLog::write_line may receive it: mostly a well-formed record of some kind, sometimes with text in
+    front of it, damaged in one place, or no record at all."""
+    c = rng.random()
+    k = rng.choice(PRETTY_KINDS)
+    pid = rng.choice(["1", "31924", "-5", "0", "1234567", "+7", "007", "x", "", "99999"])
+    ts = rng.choice(["0.0000", "1790659939.3597", "1e3", "nan", ".5", "1.", "abc", ""])
+    if c < 0.5:
+        pid, ts = rng.choice(["1", "31924", "0", "1234567"]), "1790659939.3597"
+    rec = "@@REDO:%s:%s:%s@@ %s" % (k, pid, ts, pretty_text(rng))
+    if c < 0.62:
+        return rec, "record"
+    if c < 0.72:
+        return pretty_text(rng) + rec, "record-after-text"
+    if c < 0.77:
+        return "@@REDO:bad@@ " + rec, "second-prefix"
+    if c < 0.82:
+        return rec.replace("@@ ", "@@", 1), "damaged"
+    if c < 0.86:
+        return "@@REDO:" + k + ":" + pid + "@@ " + pretty_text(rng), "damaged"
+    if c < 0.9:
+        return "@@REDO:%s:%s:%s:extra@@ %s" % (k, pid, ts, pretty_text(rng)), "extra-field"
+    return pretty_text(rng) + pretty_text(rng), "plain"
+
+
+def pretty_level(ctx, rng, viol):
+    """`PrettyLog::write_line` / `RawLog::write_line` (hook 2066cb1) against `Pretty.writeLine` / `rawLine`, in process:
+    every record kind under every verbosity configuration, depths, with and without colour escapes."""
+    n = 30000 if ctx["tier"] == "thorough" else 5000
+    lines, shapes = [], []
+    for _ in range(n):
+        l, shape = pretty_input(rng)
+        d, v, x = rng.choice([0, 0, 0, 1, 2, -1]), rng.choice([0, 0, 1, -1]), rng.choice([0, 0, 1])
+        lines.append("pretty-line %d %d %d %d %d %d %d %d %s" % (d, rng.random() < .4, rng.random() < .3, v, x, rng.random() < .5,
+                                                                  rng.choice([0, 0, 1, 2, 7, 40]), rng.random() < .3, hx(l)))
+        shapes.append(shape)
+    for _ in range(n // 10):
+        lines.append("raw-line " + hx(pretty_input(rng)[0]))
+    m = run_lines(MODEL, lines)
+    impl = run_lines(RH, lines)
+    diffs = [(l, a, b) for l, a, b in zip(lines, m, impl) if a != b]
+    stats = dict(requests=len(lines), shown=sum(1 for a in impl[:n] if a not in ("-", "bad-op", "panic")), suppressed=sum(1 for a in impl[:n] if a == "-"),
+                 shapes=dict((k, shapes.count(k)) for k in sorted(set(shapes))))
+    # implementation monitor (no model involved): a line without the record prefix is written back unchanged
+    for l, b, shape in zip(lines[:n], impl[:n], shapes):
+        raw = unhx(l.split()[-1])
+        if b"@@REDO:" not in raw and unhx(b) != raw + b"\n":
+            p = write_replay("C18", "pretty-plain-line", dict(kind="impl-monitor", clause="every stderr line appears exactly once, unchanged, in the live output", request=l, line=raw.decode("utf-8", "replace"), written=unhx(b).decode("utf-8", "replace")))
+            viol.append(Violation("C18", p, "PrettyLog::write_line does not write the plain line %r as it is (wrote %r)" % (raw, unhx(b))))
+            return stats
+    if diffs:
+        l, a, b = diffs[0]
+        raw = unhx(l.split()[-1]).decode("utf-8", "replace")
+        p = write_replay("C18", "corr-pretty", dict(kind="model-vs-impl", layer="Pretty.writeLine", request=l, line=raw, model=unhx(a).decode("utf-8", "replace") if a not in ("bad-op",) else a,
+                                                    impl=unhx(b).decode("utf-8", "replace") if b not in ("bad-op", "panic") else b, count=len(diffs)))
+        # failing-input search: a failed `done` record that is not shown, or a plain part of a line that is lost
+        bad = None
+        for l2, a2, b2 in diffs:
+            raw2 = unhx(l2.split()[-1]).decode("utf-8", "replace")
+            mm = re.match(r"^@@REDO:done:\d+:[0-9.]+@@ ([1-9]\d*) (\S.*)$", raw2)
+            if b2 == "panic":
+                bad = "PrettyLog::write_line panics on %r" % raw2
+                break
+            if mm and ("%s (exit %s)" % (mm.group(2), mm.group(1))) not in unhx(b2).decode("utf-8", "replace"):
+                bad = "the failure record %r is not shown as '%s (exit %s)'" % (raw2, mm.group(2), mm.group(1))
+                break
+        viol.append(Violation("C18", p, "PrettyLog::write_line differs from the model on %d of %d lines%s" % (len(diffs), len(lines), "; " + bad if bad else ""), no_input=not bad))
+    return stats
+
+
 def parse_out(text):
     out = []
     for l in text.split("\n"):
@@ -238,6 +317,37 @@ def replay_level(ctx, rng, viol):
                     bad = impl_replay_violation(F, roots, got) if not mres.startswith("err:") and rc == 0 else None
                     viol.append(Violation("C18", p, "replay of a synthetic log forest differs from the model%s" % ("; " + bad if bad else ""), no_input=not bad))
                     return stats, samples
+                # the same replay in pretty mode (the default of redo-log): catlog's indentation (fix_depth / reduce_depth)
+                # and PrettyLog::write_line against Pretty.replayText
+                pv, px = rng.choice([0, 0, 1]), rng.choice([0, 0, 1])
+                preq = "catlog-pretty %d %d %d 1 %s %s" % (pv, px, optu, ",".join(hx(r) for r in roots), fenc)
+                pres = run_lines(MODEL, [preq])[0]
+                penv = {}
+                if pv:
+                    penv["REDO_VERBOSE"] = "1"
+                if px:
+                    penv["REDO_XTRACE"] = "1"
+                prc, pout, perr = pr.run(["redo-log", "--no-color", "--no-status", "-r"] + (["-u"] if optu else []) + roots, env=penv)
+                stats["pretty_replays"] = stats.get("pretty_replays", 0) + 1
+                if pres.startswith("ok "):
+                    pwant = unhx(pres[3:]).decode()
+                    pagree = prc == 0 and pout == pwant
+                    stats["pretty_bytes"] = stats.get("pretty_bytes", 0) + len(pwant)
+                    stats["pretty_indented_lines"] = stats.get("pretty_indented_lines", 0) + sum(1 for l in pwant.splitlines() if l.startswith("redo    "))
+                    stats["pretty_exit_lines"] = stats.get("pretty_exit_lines", 0) + pwant.count(" (exit ")
+                    stats["pretty_done_lines"] = stats.get("pretty_done_lines", 0) + pwant.count(" (done)")
+                    stats["pretty_resumed_lines"] = stats.get("pretty_resumed_lines", 0) + pwant.count(" (resumed)")
+                else:
+                    pwant = pres
+                    pagree = prc != 0
+                if not pagree:
+                    bad = None
+                    if pres.startswith("ok ") and prc == 0:
+                        bad = pretty_replay_violation(F, roots, pout)
+                    p = write_replay("C18", "corr-pretty-replay", dict(kind="model-vs-impl", layer="Pretty.replayText over LogRec.redoLog", forest=F, roots=roots, unchanged=optu,
+                                                                       verbose=pv, xtrace=px, model=pwant, impl=pout, rc=prc, stderr=perr[-600:]))
+                    viol.append(Violation("C18", p, "pretty-mode replay of a synthetic log forest differs from the model%s" % ("; " + bad if bad else ""), no_input=not bad))
+                    return stats, samples
                 if len(samples) < 2 and not mres.startswith("err:") and len(got) > 6:
                     samples.append(dict(forest=F, roots=roots, unchanged=optu, output=got[:12]))
     finally:
@@ -257,6 +367,26 @@ def impl_replay_violation(F, roots, got):
             exp = sum(1 for u in entered for y in (F.get(u) or []) if not y.startswith("@@REDO:") and y.rstrip() == l.rstrip())
             if c != exp:
                 return "line %r of %s appears %d times, expected %d" % (l, t, c, exp)
+    return None
+
+
+def pretty_replay_violation(F, roots, pout):
+    """Independent monitor for the pretty-mode replay: every plain (record-free) line of a log whose target was shown
+    appears exactly as often as it was written."""
+    shown = set(os.path.normpath(r) for r in roots)
+    for l in pout.splitlines():
+        mm = re.match(r"^redo  +(\S.*)$", l)
+        if mm and not mm.group(1).endswith(")"):
+            shown.add(mm.group(1))
+    lines = pout.splitlines()
+    for t in shown:
+        for l in F.get(t) or []:
+            if "@@REDO:" in l:
+                continue
+            c = sum(1 for x in lines if x == l.rstrip())
+            exp = sum(1 for u in shown for y in (F.get(u) or []) if "@@REDO:" not in y and y.rstrip() == l.rstrip())
+            if c != exp:
+                return "line %r of %s appears %d times in the pretty output, expected %d" % (l, t, c, exp)
     return None
 
 
@@ -969,6 +1099,9 @@ def run(ctx):
     s1, smp1 = record_level(ctx, rng, viol)
     s2, smp2 = ({}, [])
     s3, smp3 = ({}, [])
+    s0 = {}
+    if not viol:
+        s0 = pretty_level(ctx, random.Random(ctx["seed"] * 104729 + 18), viol)
     if not viol:
         s2, smp2 = replay_level(ctx, rng, viol)
     if not viol:
@@ -1002,4 +1135,4 @@ def run(ctx):
                 rule="record-shaped and malformed lines from a seeded grammar (non-trivial = accepted by the parser); synthetic 6-target log forests in two directories (t0 t1 t2 sub/t3 sub/t4 sub/t5; records do/unchanged/waiting/done/other whose names are random spellings relative to the log's own directory — t1, ./t1, sub/../t1, ../sub/t4, sub//t3, sub/./t3 …; look-alikes, missing files, cycles; roots through random spellings too) replayed by the real redo-log -r with and without -u (non-trivial = replay without error); live builds of random graphs at several -j with numbered/partial/70 kB/trailing-whitespace lines; live builds of trees whose inner targets keep 1-3 background writers (and sometimes a second redo-ifchange) on their own log while redo-ifchange builds ~20 children, free-running and once under strace with every write(2) slowed down (lines per writer exactly once and in order under the target, stored records well-formed, every record written by ONE write call)",
                 samples=smp1 + smp2 + smp3, disagreements_checked=s1["requests"] + s2.get("replays", 0),
                 traces_validated_against_impl=s2.get("replays", 0), known_hit=known_hit,
-                distribution=dict(record=s1, replay=s2, live=s3, follow_oob_scenario=s4, concurrent_writers=s5))
+                distribution=dict(record=s1, pretty=s0, replay=s2, live=s3, follow_oob_scenario=s4, concurrent_writers=s5))
